@@ -214,7 +214,9 @@ def judge2(journal, plan, markers, viol, stats):
                         covered.add(m)
             if mm and mm.group(1) in ("enabled", "resumed") and c > 0:
                 # what must come again on this connection: sent under stream management, not covered, report still open
-                exp = [m for m in markers if m in marker_xml and marker_sess.get(m) is not None and m not in covered and m not in done]
+                # (a report that has already ended in an *error* does not release the obligation: under stream management nothing but the
+                #  destruction of the client or a change of account ends a report before the stanza is covered, and neither happens here)
+                exp = [m for m in markers if m in marker_xml and marker_sess.get(m) is not None and m not in covered and done.get(m) in (None, "error")]
                 if not hostile:
                     checks[c] = {"kind": "resumed" if mm.group(1) == "resumed" else "new-session", "expected": exp, "covered_then": set(covered)}
                 else:
